@@ -96,24 +96,27 @@ type PanicInfo struct {
 }
 
 var digits = regexp.MustCompile(`[0-9]+`)
+var hexptr = regexp.MustCompile(`0x[0-9a-fA-F]+`)
 var quoted = regexp.MustCompile(`"[^"]*"`)
 
 // MsgClass normalises a panic message so that inputs that hit the same panic share a class.
 func MsgClass(s string) string {
 	s = quoted.ReplaceAllString(s, `"…"`)
+	s = hexptr.ReplaceAllString(s, "PTR")
 	s = digits.ReplaceAllString(s, "N")
 	if i := strings.Index(s, "\n"); i >= 0 {
 		s = s[:i]
 	}
 	// "no decoration found for // comment text": keep the fixed prefix only
-	for _, p := range []string{"no decoration found for"} {
+	for _, p := range []string{"no decoration found for", "duplicate node"} {
 		if strings.HasPrefix(s, p) {
 			s = p
 		}
 	}
-	if len(s) > 90 {
-		s = s[:90]
+	if len(s) > 70 {
+		s = s[:70]
 	}
+	s = strings.Replace(s, " ", "_", -1)
 	return s
 }
 
